@@ -128,10 +128,11 @@ CLAIMED = {
          'VerifyingKey.from_string as parameters), to_hex, to_x_only_hex, is_y_even and _to_hash160 are re-translated as well: the translated constructor accepts b.hex() exactly '
          'when the model accepts b, with the same point, the renderings are the SEC standard forms, so the SEC round trip (translated to_hex parsed back by the translated '
          'constructor gives the identical point; x-only gives the even-y representative) and the off-curve rejection are about the translated code; the string glue '
-         '(case, 0x, whitespace, signs, underscores, odd lengths) is run against the implementation. Key construction from secrets (python-ecdsa) is a hand model tied to the '
-         'code by the correspondence run.',
+         '(case, 0x, whitespace, signs, underscores, odd lengths) is run against the implementation. PrivateKey.__init__ (which argument wins; random only when all three are None) '
+         'and _from_bytes are translated too (python-ecdsa constructors as parameters with their range checks) and proved equal to the model, so "an explicit secret is held '
+         'exactly or construction fails" is about the translated constructor; get_public_key (d*G inside python-ecdsa) stays a parameter checked against the Lean curve.',
          NOTE_COMMON + 'base58check, python-ecdsa constructors and sympy sqrt_mod modelled by their specifications.',
-         'Lean 4 proof (WIF and SEC public-key parsing / rendering over translated source; key construction hand model) + differential correspondence', '6/C09'),
+         'Lean 4 proof over translated source (WIF, key construction, SEC public-key parsing / rendering; third-party constructors as parameters) + differential correspondence', '6/C09'),
  'C10': ('Kernel-checked theorems: address string = Base58Check(version || hash) with the generated per-network version bytes; an address object '
          'accepts a string only if it is Base58Check-valid with that version byte and a 20-byte payload and then holds exactly that payload; '
          'round trip for every 20-byte hash (26..35-character window as hypothesis); pubkey addresses commit to HASH160 of the SEC encoding. '
